@@ -254,16 +254,20 @@ int fegetround(void);
         cif_value_tp *v = (cif_value_tp *) val; \
         cif_kind_tp _kind; \
         int _D_result; \
+        UChar *_D_text = NULL;  /* text not (yet) owned by the value */ \
         v->kind = CIF_UNK_KIND; \
         if (cif_buf_read(_buf, &_kind, sizeof(cif_kind_tp)) == sizeof(cif_kind_tp)) { \
             switch(_kind) { \
                 case CIF_CHAR_KIND: \
-                    v->kind = CIF_CHAR_KIND; \
-                    /* fall through */ \
                 case CIF_NUMB_KIND: \
-                    DESERIALIZE_USTRING(v->as_char.text, _buf, vfail); \
-                    if ((_kind == CIF_NUMB_KIND) && ((_D_result = cif_value_parse_numb(v, v->as_char.text)) != CIF_OK))\
+                    DESERIALIZE_USTRING(_D_text, _buf, vfail); \
+                    if (_kind == CIF_CHAR_KIND) { \
+                        v->as_char.text = _D_text; \
+                        v->kind = CIF_CHAR_KIND; \
+                    } else if ((_D_result = cif_value_parse_numb(v, _D_text)) != CIF_OK) { \
                         FAIL(vfail, _D_result); \
+                    } \
+                    _D_text = NULL; \
                     DESERIALIZE_QUOTED_FLAG(v->as_char.quoted, _buf, vfail); \
                     break; \
                 case CIF_LIST_KIND: \
@@ -284,6 +288,9 @@ int fegetround(void);
             break; \
         } \
         FAILURE_HANDLER(vfail): \
+        /* release a partially deserialized scalar; the kind is CIF_UNK_KIND unless one was completed */ \
+        free(_D_text); \
+        cif_value_clean(v); \
         if (val != value) free(val); \
         DEFAULT_FAIL(onerr); \
     } \
